@@ -47,8 +47,13 @@ func genInput(t *rapid.T, k stdh.Kind) ([]byte, string, [][2]uint64) {
 	if src >= 5 {
 		switch pkg {
 		case "deflate", "zlib", "gzip", "lzw":
+			// mostly small payloads (many calls per byte); one in four may exceed the 32 KiB history window
+			pmax := 5000
+			if rapid.IntRange(0, 3).Draw(t, "bigpayload") == 0 {
+				pmax = 90000
+			}
 			for i := 0; i < 8; i++ {
-				e := stdgen.Compressed(t, stdgen.Payload(t, "pl", 5000), "enc")
+				e := stdgen.Compressed(t, stdgen.Payload(t, "pl", pmax), "enc")
 				if e.Pkg == pkg {
 					base, desc, quirks = e.Data, "encoded:"+e.Pkg, e.Quirks
 					break
